@@ -58,6 +58,22 @@ fn npy_bases(tier: Tier) -> Vec<NpyBase> {
             }
         }
     }
+    // headers aligned to 16 bytes as numpy before 1.14 wrote them (preamble + header = 112 or 80
+    // bytes, not a multiple of 64)
+    for (i, s) in [vec![5usize], vec![2, 3], vec![7]].iter().enumerate() {
+        let n: usize = s.iter().product();
+        let d = dict_text("<f8", false, s, &np);
+        let unpadded = 10 + d.len() + 1;
+        let pad = (16 - unpadded % 16) % 16 + if (unpadded + (16 - unpadded % 16) % 16) % 64 == 0 { 16 } else { 0 };
+        let header_len = d.len() + pad + 1;
+        let mut bytes = b"\x93NUMPY\x01\x00".to_vec();
+        bytes.extend_from_slice(&(header_len as u16).to_le_bytes());
+        bytes.extend_from_slice(d.as_bytes());
+        bytes.extend(std::iter::repeat(b' ').take(pad));
+        bytes.push(b'\n');
+        bytes.extend((0..n * 8).map(|b| (b * 3 + i) as u8 & 0x3f));
+        v.push(NpyBase { name: format!("numpy-layout <f8 v1 shape {s:?} with a 16-aligned header of {} bytes", 10 + header_len), bytes, itemsize: 8 });
+    }
     // column-major files of shapes for which the layout coincides with row-major (one axis, or all
     // axes but one of length one): whether or not such a file is accepted undamaged, a damaged one
     // has the wrong number of values and is invalid under every reading
@@ -316,6 +332,29 @@ fn text_cases(shapes: &[Vec<usize>]) -> Vec<TextCase> {
         if s.len() == 2 {
             edits.push((vec![s[1], s[0]], "axes swapped".into()));
         }
+        // an axis spelled so that it is not an unsigned integer - appended, prepended, or in place of an
+        // axis: the header is damaged whatever the remaining axes multiply to
+        // (only spellings that contain digits and stay unparsable after the reader has trimmed the
+        // non-numeric characters around the list: `+`, a word or a trailing dot are trimmed away with the
+        // brackets, which leaves the original shape - not a different spectrum)
+        for bad in ["2.0", "1e1", "0x2", "18446744073709551616", "1_0", "3.0", "2e1"] {
+            let axes: Vec<String> = s.iter().map(|n| n.to_string()).collect();
+            let mut variants: Vec<(Vec<String>, String)> = Vec::new();
+            let mut v = axes.clone();
+            v.push(bad.to_string());
+            variants.push((v, format!("axis '{bad}' appended")));
+            let mut v = axes.clone();
+            v.insert(0, bad.to_string());
+            variants.push((v, format!("axis '{bad}' prepended")));
+            for a in 0..axes.len() {
+                let mut v = axes.clone();
+                v[a] = bad.to_string();
+                variants.push((v, format!("axis {a} replaced by '{bad}'")));
+            }
+            for (v, desc) in variants {
+                out.push(TextCase { text: format!("#SHAPE=<{}>\n{}\n", v.join("/"), toks.join(" ")), what: format!("shape {s:?}: {desc}"), class: "shape-unparsable-axis", consistent: false });
+            }
+        }
         for (e, desc) in edits {
             out.push(TextCase {
                 text: render(&e, &toks),
@@ -562,6 +601,11 @@ pub fn run(tier: Tier) -> i32 {
                 }
             }
         }
+        if !tier.thorough() {
+            // beyond the quick ladder: the appended value at 128 and 256 MiB through `stat`
+            jobs.push((1 << 27, 8, 2));
+            jobs.push((1 << 28, 8, 2));
+        }
         // the largest files run four at a time (each holds the file and the child's copy of it)
         let (small, large): (Vec<_>, Vec<_>) = jobs.iter().cloned().partition(|j| j.0 < (1 << 25));
         let mut res: Vec<Option<Viol>> = par_map(small.len(), |i| eval_sized(small[i].0, small[i].1, small[i].2, &scratch));
@@ -575,7 +619,7 @@ pub fn run(tier: Tier) -> i32 {
             name: "cli: file-size ladder".into(),
             evaluations: jobs.len() as u64,
             nontrivial: jobs.len() as u64,
-            note: format!("1-D npy files of 2^e - 8, 2^e and 2^e + 8 bytes for e in {exps:?}, each followed by 1 / 8 / 16 bytes or cut short by 1 / 8 bytes, through view / fold / stat (above 16 MiB: stat for every damage, all three for the appended value): all rejected without output"),
+            note: format!("1-D npy files of 2^e - 8, 2^e and 2^e + 8 bytes for e in {exps:?}, each followed by 1 / 8 / 16 bytes or cut short by 1 / 8 bytes, through view / fold / stat (above 16 MiB: stat for every damage, all three for the appended value; quick also 128 and 256 MiB files with 8 bytes appended through stat): all rejected without output"),
             exhaustive: true,
             extra: vec![],
         });
